@@ -120,6 +120,10 @@ class Summary:
             return node.get('name') in self.PURE_STD
         return False
 
+    @staticmethod
+    def is_pure_call_text(text):
+        return any(('::%s on ' % n) in text for n in Summary.PURE_STD)
+
     def frozen_condition(self, F=None):
         """condition under which the function changes nothing: no write, no loop, no call that may change state"""
         out = boolform.F_
@@ -157,12 +161,14 @@ class Summarizer:
             return e
         k = e.get('k')
         if k == 'ref' and e.get('dk') in ('local', 'binding') and e.get('name') in p.env:
-            return copy.deepcopy(p.env[e['name']])
+            return self._value(p.env[e['name']])
+        if k == 'ref' and e.get('dk') == 'parm' and ('$parm', e.get('idx')) in p.env:
+            return self._value(p.env[('$parm', e.get('idx'))])
         if k in ('mem', 'index') or (k == 'opcall' and e.get('op') == '[]'):
             inner = {kk: (self.sub(v, p) if isinstance(v, (dict, list)) and kk not in ('owner', 'fta', 'ta') else v) for kk, v in e.items()}
             key = self.R.r(inner)
             if key in p.wmap:
-                return copy.deepcopy(p.wmap[key])
+                return self._value(p.wmap[key])
             return inner
         if k == 'lambda':
             return e
@@ -176,9 +182,29 @@ class Summarizer:
                 out[kk] = v
         return out
 
+    @staticmethod
+    def _value(v):
+        """copy of a remembered value; its side effects were recorded when it was computed and are not recorded again"""
+        v = copy.deepcopy(v)
+        if isinstance(v, dict):
+            v['_remembered'] = True
+        return v
+
+    @staticmethod
+    def _fresh(e):
+        """nodes of e outside remembered values"""
+        stack = [e]
+        while stack:
+            x = stack.pop()
+            if not isinstance(x, dict) or x.get('_remembered'):
+                continue
+            yield x
+            from .astq import children
+            stack.extend(reversed(list(children(x))))
+
     # ---- side effects inside expressions (calls, ++ on fields, nested assignments)
     def expr_effects(self, e, p, skip=None):
-        for n in walk(e):
+        for n in self._fresh(e):
             if n is skip:
                 continue
             k = n.get('k')
@@ -221,7 +247,43 @@ class Summarizer:
                 raise Unsupported('more than %d paths' % MAX_PATHS)
         return paths
 
+    def _cond_value(self, st):
+        """(setter, cond node) when statement st computes one value by a top-level `c ? a : b`"""
+        k = st.get('k')
+        holder, key = None, None
+        if k == 'decl' and len(st.get('vars', [])) == 1 and 'init' in st['vars'][0]:
+            holder, key = st['vars'][0], 'init'
+        elif k == 'assign':
+            holder, key = st, 'rhs'
+        elif k == 'return' and st.get('e') is not None:
+            holder, key = st, 'e'
+        if holder is None:
+            return None
+        v = holder[key]
+        chain = []
+        while isinstance(v, dict) and v.get('k') == 'cast':
+            chain.append(v)
+            v = v.get('e')
+        if isinstance(v, dict) and v.get('k') == 'cond':
+            return holder, key, v
+        return None
+
     def stmt(self, st, p):
+        cv = self._cond_value(st)
+        if cv is not None:
+            holder, key, c = cv
+            # `x = c ? a : b;` is `if (c) x = a; else x = b;`
+            def variant(val):
+                st2 = dict(st)
+                if holder is st:
+                    st2[key] = val
+                else:
+                    v2 = dict(holder)
+                    v2[key] = val
+                    st2['vars'] = [v2]
+                return st2
+            as_if = {'k': 'if', 'l': st.get('l'), 'cond': c['c'], 'then': variant(c['a']), 'else': variant(c['b'])}
+            return self.stmt(as_if, p)
         k = st.get('k')
         if k == 'block':
             return self.run(st.get('body', []), [p])
@@ -335,7 +397,13 @@ class Summarizer:
                 p.env[t['name']] = {'k': 'bin', 'op': op[:-1], 'lhs': old, 'rhs': rhs, 't': st.get('t')}
             return p
         if isinstance(t, dict) and t.get('k') == 'ref' and t.get('dk') == 'parm':
-            p.imprecise = True
+            # a by-value parameter used as a local
+            key = ('$parm', t.get('idx'))
+            if op == '=':
+                p.env[key] = rhs
+            else:
+                old = p.env.get(key, t)
+                p.env[key] = {'k': 'bin', 'op': op[:-1], 'lhs': old, 'rhs': rhs, 't': st.get('t')}
             return p
         lvs = self.sub_lvalue(t, p)
         lv = self.R.r(lvs)
@@ -423,14 +491,7 @@ class Summarizer:
         return s
 
     def _sat(self, f):
-        names = sorted(boolform.atoms(f))
-        if len(names) > 14:
-            return True
-        from itertools import product
-        for vals in product((False, True), repeat=len(names)):
-            if boolform.ev(f, dict(zip(names, vals))):
-                return True
-        return False
+        return boolform.satisfiable(f)
 
 
 def summarize(f, F=None, asserts='fork'):
@@ -456,3 +517,21 @@ def summary(ctx, f, asserts='fork'):
         raise AnalysisBroken('%s: cannot summarise %s: %s' % (ctx.prop, f.get('id'), e))
     ctx.touch(f)
     return S
+
+
+def summary_of(ctx, f, stmts, asserts='ignore'):
+    """summary of a statement list taken out of function f (a stage of a loop body), as if it were a function body"""
+    from .facts import AnalysisBroken
+    pseudo = dict(f)
+    pseudo['body'] = {'k': 'block', 'l': f.get('line'), 'body': list(stmts)}
+    pseudo['ret'] = 'void'
+    try:
+        S = Summarizer(pseudo, ctx.F['functions'], asserts)
+        # locals of the enclosing function keep their names (they are inputs of the fragment)
+        paths = S.run(pseudo['body']['body'], [Path()])
+    except Unsupported as e:
+        raise AnalysisBroken('%s: cannot summarise a fragment of %s: %s' % (ctx.prop, f.get('id'), e))
+    for p in paths:
+        if p.end is None:
+            p.end = 'return'
+    return Summary(pseudo, paths, S.R, S.former)
